@@ -337,9 +337,38 @@ class TrackerStream(Stream):
         return None
 
 
+class LeaderStream(Stream):
+    name = "raftleader"
+    driver = "raftleader"
+    harness = {"name": "raftc09", "module": "root", "pkg": "./internal/physical/raft",
+               "files": {"internal/physical/raft/zz_verif_c09_test.go": "wb/raft/zz_verif_c09_test.go",
+                         "internal/physical/raft/zz_verif_c09l_test.go": "wb/raft/zz_verif_c09l_test.go",
+                         "internal/zzverif/vh/vh.go": "vh/vh.go"}}
+    testname = "TestVerifC09Leader"
+    rule = ("a real single-node RaftBackend (leader) per case, raftchunking.ChunkSize lowered to 600 bytes: plain puts/deletes "
+            "and up to three overlapping write transactions (gets, puts, deletes) with values below and above the chunk size "
+            "(30% of the values: the operation is split over 2-5 log entries), every operation applied before the next is "
+            "submitted, no rollback before the last verdict; the harness records what the leader reported to each client; "
+            "the leader's committed log is read back from its log store, re-assembled per operation, translated into the "
+            "raftfsm entry language (read verifications matched with what the transaction saw) and the RAW entries are "
+            "replayed chunk by chunk (random cuts inside an operation) into an independent real FSM; compared with the model "
+            "replica: follower verdict + state per entry, the leader's reported verdict per operation, the leader's own data; "
+            "predicate: leader's report = follower's verdict for the same entry, follower data = leader data; "
+            "non-trivial = a transaction or a chunked operation; distinct = distinct op line")
+    env = RaftFSMStream.env
+
+    def nontrivial(self, op, impl):
+        f = op.split("\t")
+        return (f[0] == "batch" and ("b:" in op)) or (f[0] == "leader" and (impl[:1] in ("C", "X") or (len(f) > 2 and f[2] != "1")))
+
+
+RaftFSMStream.harness = LeaderStream.harness
+TrackerStream.harness = LeaderStream.harness
+
+
 class C09(PropCheck):
     pid = "C09"
-    streams = [RaftFSMStream(), TrackerStream()]
+    streams = [RaftFSMStream(), TrackerStream(), LeaderStream()]
     level_text = ("Lean theorems over a model of FSM.ApplyBatch and the fast-application tracker "
                   "(Obao/Model/RaftFSM.lean): apply_deterministic_full_verify / replicas_agree_full_verify (fast path "
                   "disabled: state and every verdict equal the reference for all logs, all batchings, all restart and "
